@@ -538,7 +538,7 @@ func runC04(c *core.Ctx) core.Meta {
 		}
 		var buf ssa.Value
 		for _, prm := range fn.Params {
-			if prm.Name() == "buf" {
+			if core.PinnedName(fn, prm.Name()) == "buf" {
 				buf = prm
 			}
 		}
@@ -633,7 +633,7 @@ func runC04(c *core.Ctx) core.Meta {
 			}
 			var buf ssa.Value
 			for _, prm := range fn.Params {
-				if prm.Name() == "buf" {
+				if core.PinnedName(fn, prm.Name()) == "buf" {
 					buf = prm
 				}
 			}
@@ -1410,7 +1410,7 @@ func flagEstablishes(c *core.Ctx, pi *PkgInfo, g *core.Graph, n *core.Node, k in
 			found = true
 			var buf ssa.Value
 			for _, prm := range fn.Params {
-				if prm.Name() == "buf" {
+				if core.PinnedName(fn, prm.Name()) == "buf" {
 					buf = prm
 				}
 			}
